@@ -180,7 +180,13 @@ func c03Check(c *Ctx, spec *gen.TableSpec, decos []namedDeco, st *stage, sample 
 		// table with items in their earlier state, and then (judged) the final table under every decoration
 		b = spec.BuildStagedN(t0, st.points(), func() { o, _ := reused.Render(); c.Keep(o, "an earlier Render through the same wrapper") })
 		reused.SetDecoration(decos[len(decos)-1].d).Render()
-		b.Finalize()
+		if gen.Hash64(spec.Shape(), "finalize")%4 == 0 {
+			// the items reach their final state, and their cells are updated, from inside the judged render
+			b.FinalizeFromCallbacks()
+			c.Rec.Count("staged_cases_whose_items_are_refreshed_by_pre-cell_callbacks_during_the_judged_render", 1)
+		} else {
+			b.Finalize()
+		}
 		c.Rec.Count("staged_cases(render, change, render again through the same wrapper)", 1)
 	} else {
 		b = spec.Build(t0)
@@ -218,8 +224,9 @@ func c03Check(c *Ctx, spec *gen.TableSpec, decos []namedDeco, st *stage, sample 
 				c.Rec.Violate("text:text-with-error", fmt.Sprintf("Render returned %d bytes together with error %v", len(out), err), cs)
 				return
 			}
-			c.Rec.Count("renders_refused", 1)
-			continue
+			// the statement is unconditional for a table with at least one column under a complete decoration
+			c.Rec.Violate("text:refused-although-in-domain", fmt.Sprintf("under decoration %s the text renderer refused a table with %d column(s): %v", nd.name, spec.NCols(), err), cs)
+			return
 		}
 		c.Rec.Count("outputs_parsed", 1)
 		if nd.boxless {
